@@ -136,7 +136,8 @@ def configs(tier, seed):
         # the signal is an instance of an ndarray subclass (np.memmap, a user subclass): no-copy conversions hand back
         # another object on the same memory
         cfgs.append(dict(kind=kind, name='%s f8 in_place=False, ndarray subclass instance' % kind, dt='f8', in_place=False, subclass=True))
-    shapes = [(2, 3), (3, 2, 2), (2, 2, 3), (2, 3, 2, 2)] if tier == 'quick' else [(2, 3), (3, 2), (3, 2, 2), (2, 2, 3), (2, 3, 2), (4, 4, 4), (2, 3, 2, 2), (2, 2, 2, 3)]
+    # shapes include axes of length 1 and 0 (a mono column, an empty batch)
+    shapes = [(2, 3), (3, 1), (1, 3), (3, 0), (2, 1, 2), (3, 2, 2), (2, 2, 3), (2, 3, 2, 2)] if tier == 'quick' else [(2, 3), (3, 2), (3, 1), (1, 3), (3, 0), (0, 3), (2, 1, 2), (1, 1, 3), (3, 2, 2), (2, 2, 3), (2, 3, 2), (4, 4, 4), (2, 3, 2, 2), (2, 2, 2, 3), (2, 1, 2, 1)]
     for shp in shapes:
         cfgs.append(dict(kind='preemph_axis', name='preemphasize along every axis of %s' % (shp,), shape=list(shp)))
     cfgs.append(dict(kind='torch_pre', name='torch preemphasize'))
